@@ -22,7 +22,12 @@ type ByteCoder interface {
 // ByteCode compiles bc and appends the results in cr.
 //
 // The evaluation result is left on the stack.
-func ByteCode(bc ByteCoder, cr compResult) {
+//
+// A program that is too large to be encoded is refused: an error is returned
+// and cr is left as it was.
+func ByteCode(bc ByteCoder, cr compResult) (err error) {
+	defer refuseOversize(cr, len(*cr.CS), len(*cr.DS), &err)
+
 	var fl flags.Data
 
 	instr := bc.byteCode(0, fl.Pass(), cr)
@@ -30,12 +35,38 @@ func ByteCode(bc ByteCoder, cr compResult) {
 		instr |= bytecode.New(bytecode.PUSH)
 		*cr.CS = append(*cr.CS, instr)
 	}
+
+	return nil
+}
+
+// refuseOversize turns a bytecode.RangeError panic into an error, rolling cr
+// back to the given code and data segment sizes.
+func refuseOversize(cr compResult, csLen, dsLen int, err *error) {
+	r := recover()
+	if r == nil {
+		return
+	}
+	re, ok := r.(bytecode.RangeError)
+	if !ok {
+		panic(r)
+	}
+	*cr.CS = (*cr.CS)[:csLen]
+	*cr.DS = (*cr.DS)[:dsLen]
+	for ip := range *cr.Dbg {
+		if ip >= csLen {
+			delete(*cr.Dbg, ip)
+		}
+	}
+	*err = re
 }
 
 // ByteCodeNoStck compiles bc and appends the results in cr.
 //
 // The evaluation result is lost, code is expected to run for side effects.
-func ByteCodeNoStck(bc ByteCoder, cr compResult) {
+// Like ByteCode it refuses a program that is too large.
+func ByteCodeNoStck(bc ByteCoder, cr compResult) (err error) {
+	defer refuseOversize(cr, len(*cr.CS), len(*cr.DS), &err)
+
 	var fl flags.Data
 
 	instr := bc.byteCode(0, fl.Pass(flags.WithDiscard(true)), cr)
@@ -43,6 +74,8 @@ func ByteCodeNoStck(bc ByteCoder, cr compResult) {
 		instr = bytecode.New(bytecode.POP)
 		*cr.CS = append(*cr.CS, instr)
 	}
+
+	return nil
 }
 
 func (i Int) byteCode(srcsel int, _ flags.Pass, cr compResult) bytecode.Type {
@@ -144,6 +177,10 @@ func (f Function) byteCode(srcsel int, fl flags.Pass, cr compResult) bytecode.Ty
 		*cr.CS = append(*cr.CS, instr)
 	}
 
+	// NewFunction keeps 16 bits of each count
+	if f.LocalCnt >= 1<<16 {
+		panic(bytecode.RangeError{Addr: f.LocalCnt})
+	}
 	funVal := value.NewFunction(bodyAddr, nil, len(f.Parameters.Elems), f.LocalCnt)
 	ix := len(*cr.DS)
 	*cr.DS = append(*cr.DS, funVal)
